@@ -5,7 +5,7 @@ import fs from "node:fs";
 import path from "node:path";
 import { pathToFileURL, fileURLToPath } from "node:url";
 import { createHash } from "node:crypto";
-import { Rng, canon, collectRefs, pool, fnv32 } from "./lib.mjs";
+import { Rng, canon, collectRefs, pool, alone, fnv32 } from "./lib.mjs";
 
 const HOME = process.env.VERIF_HOME || "/verif";
 const JSRT = process.env.JSRT || path.join(HOME, "out/jsrt");
@@ -539,10 +539,12 @@ async function workerMain(prop) {
         let result;
         if (prop === "C16") {
           const run = m.run ?? genC16(ctxs.mods, ctxs.SPC, m.index);
+          process.send({ start: m.index, run });
           result = await execC16(ctxs.mods, ctxs.SPC, run);
           if (result.violations.length || m.index < 3) result.run = run;
         } else {
           const run = m.run ?? genC13(m.index);
+          process.send({ start: m.index, run });
           result = execC13(ctxs.H, run);
           if (result.violations.length || m.index < 3) result.run = run;
         }
@@ -647,6 +649,15 @@ async function main() {
       ctxs.H = await rt("hash");
       installTap(ctxs.H);
     }
+    if (run.violation_class === "call-never-returns") {
+      const r = await alone(SELF, [prop], run, 30000);
+      if (r.stalled) {
+        console.log(`VIOLATION property=${prop} replay=${a1} class=call-never-returns`);
+        process.exit(1);
+      }
+      console.log(`replay of ${a1} did not reproduce class 'call-never-returns'`);
+      process.exit(0);
+    }
     const out = prop === "C16" ? await execC16(ctxs.mods, ctxs.SPC, run) : execC13(ctxs.H, run);
     const hit = out.violations.find((v) => !run.violation_class || v.class === run.violation_class);
     if (hit) {
@@ -665,8 +676,10 @@ async function main() {
   const agg = { n: 0, prints: 0, throws: 0, exports: 0, writes: 0, bytes: 0, viol: new Map(), sigs: new Set(), nontrivial: new Set(), samples: [], crossed: 0, extraPad: 0, overrides: 0, skipped: 0, classes: new Set(), refs: 0, defs: 0 };
   const only = process.env.JSIM_ONLY ? process.env.JSIM_ONLY.split(",").map(Number) : null;
   const indices = only ?? Array.from({ length: runs }, (_, i) => i);
+  const stalled = [];
+  let poolInfo = { stalls: 0, executed: indices.length };
   try {
-    await pool(SELF, [prop], indices, workers, (index, r) => {
+    poolInfo = await pool(SELF, [prop], indices, workers, (index, r) => {
       agg.n++;
       if (r.skipped) agg.skipped++;
       agg.prints += r.prints || 0;
@@ -697,10 +710,29 @@ async function main() {
         const cur = agg.viol.get(v.class);
         if (!cur || index < cur.index) agg.viol.set(v.class, { index, v, run: r.run });
       }
-    });
+    }, (index, run) => stalled.push({ index, run }));
   } catch (e) {
     console.log("HARNESS-ERROR: " + e.message);
     process.exit(2);
+  }
+  // a call that never returned: confirm alone (30 s) before it counts
+  stalled.sort((a, b) => a.index - b.index);
+  let confirmedStall = null;
+  for (const st of stalled.slice(0, 3)) {
+    const r = await alone(SELF, [prop], st.run, 30000);
+    if (r.stalled) {
+      confirmedStall = st;
+      break;
+    }
+  }
+  if (stalled.length && !confirmedStall) {
+    console.log(`HARNESS-ERROR: ${stalled.length} run(s) stalled in a worker but completed alone`);
+    process.exit(2);
+  }
+  if (confirmedStall) {
+    agg.n++;
+    agg.viol.set("call-never-returns", { index: -2, v: { property: prop, class: "call-never-returns", detail: { run_index: confirmedStall.index, limit_s: 30 } }, run: confirmedStall.run });
+    if (poolInfo.executed < indices.length) console.log(`NOTE: batch cut short after ${poolInfo.stalls} stalled runs (${indices.length - poolInfo.executed} run indices not executed)`);
   }
   let big = null;
   if (prop === "C13" && tier !== "quick") {
@@ -736,7 +768,7 @@ async function main() {
     }
     let min = run;
     if (index >= 0) min = await minimize(prop, run, cls, ctxs);
-    const final = prop === "C16" ? await execC16(ctxs.mods, ctxs.SPC, min) : index >= 0 ? execC13(ctxs.H, min) : { violations: [v] };
+    const final = index < 0 ? { violations: [v] } : prop === "C16" ? await execC16(ctxs.mods, ctxs.SPC, min) : execC13(ctxs.H, min);
     const fv = final.violations.find((x) => x.class === cls) ?? v;
     const file = { engine: "jsim", property: prop, violation_class: cls, root_seed: ROOT, run_index: index, ...min, observed: fv.detail };
     if (prop === "C16") file.module_project = corpusProject(min.module) ?? null;
